@@ -300,6 +300,10 @@ func (ps *PipeSim) crash(c *simrt.Chooser, label string) {
 
 // runCrashSim is the generic crash/restart run. crashAt >= 0 forces one crash when the target has executed
 // exactly crashAt requests (enumeration); otherwise crashes are scheduler actions.
+// crashSoftRestarts: also lose the target connections without stopping the tool; the next incarnation then runs on the
+// same RedisOutput object (the restart RedisInput.Run performs inside one process).
+var crashSoftRestarts = os.Getenv("SIM_CRASH_SOFT") != "0"
+
 func runCrashSim(r *Run, prop string, cfg PipeCfg, st *Stream, maxCrashes int, crashAt int) (*PipeSim, *crashOracle) {
 	ps := NewPipeSim(r, prop, cfg, st)
 	o := newCrashOracle(ps)
@@ -351,6 +355,14 @@ func runCrashSim(r *Run, prop string, cfg PipeCfg, st *Stream, maxCrashes int, c
 				o.observe()
 				ps.startIncarnation()
 			}})
+			if crashSoftRestarts {
+				acts = append(acts, pipeAction{"conn-loss", w, func() {
+					crashes++
+					ps.connLoss(r.Sched())
+					o.observe()
+					ps.startIncarnation()
+				}})
+			}
 		}
 		a := ps.pick(acts)
 		r.Logf("step %d: %s", r.W.Step(), a.label)
